@@ -38,10 +38,12 @@ m = {
     "not_applicable": [{"property_id": k, "reason": v} for k, v in sorted(NOT_APPLICABLE.items())],
     "notes": "Static analysis only. exit 0 = all rules hold (KNOWN-FINDING lines for listed findings), exit 1 = VIOLATION, "
              "exit 2 = ANALYSIS-ERROR (anchor vanished / obligation no longer decidable / self-test failed / a finding lies in a function "
-             "that was restructured by more than 8 lines against its confirmed form: DESIGN.md 2.2a). The loader reads a function that is "
+             "that was restructured by more than 8 lines against its confirmed form, that calls a helper the confirmed tree does not have, or that is "
+             "itself new -- unless the finding is positive evidence read off one statement: DESIGN.md 2.2a). The loader reads a function that is "
              "equivalent to its confirmed form under the rewriting system of pvx/core/canon.py (soundness tested by tools/canon_selfcheck.py) "
              "in the confirmed spelling. Thorough tier = quick + fault catalogue + robustness battery (14 behaviour-preserving transformations "
-             "of the anchor modules). Measured on 80 seeded changes and 60 refactorings from independent sub-agents: DESIGN.md 8-8c. "
+             "of the anchor modules). Every property also runs seven generic rules (DESIGN.md 2.2b). Measured on 200 seeded changes and 180 refactorings "
+             "from independent sub-agents who saw only the property text: DESIGN.md 8-8f. "
              "Genuine defects repaired in /repo by 'fix:' commits: " + ", ".join(FIX_COMMITS) + ". See DESIGN.md.",
 }
 (HERE / "MANIFEST.json").write_text(json.dumps(m, indent=1) + "\n")
